@@ -520,7 +520,14 @@ func newGameFor(c *Cfg) pokerface.Game {
 
 // playPrefix plays the first steps of another hand with a fixed simple policy and returns the used game object
 func playPrefix(c *Cfg, steps int) pokerface.Game {
-	g := newGameFor(c)
+	var g pokerface.Game
+	if c.Prev != nil && c.Reuse == 1 {
+		// a session: the object already served the hand(s) before this one
+		g = playPrefix(c.Prev, c.PrevSteps)
+		g.ApplyOptions(c.Opts())
+	} else {
+		g = newGameFor(c)
+	}
 	if g.Start() != nil {
 		return g
 	}
